@@ -20,7 +20,7 @@ SPEC = {
 }
 
 CLAIM = {
-    "text": "The route table is taken from the running program: a verif-tagged overlay file walks the live admin ServeMux by reflection and dumps every registered pattern (cross-checked against every HTTPRegister/httpRegister call and '/control/...' literal in the source; a registered path missing from the dump makes the run inconclusive). For every dumped route the monitor sends raw HTTP/1.1 requests (request target exactly as spelled) over all methods x content types x bodies x credential shapes (none, unknown/malformed/empty/expired/logged-out cookie, token with suffix, wrong/empty/unknown basic, bad cookie + right basic, valid cookie, valid basic) and path spellings that normalise to the route (doubled slash, dot and dot-dot segments, encoded dot-dot, /login.html/.. and /assets/.. prefixes, CONNECT without path cleaning). Oracle: without valid credentials a non-public route answers only 403 (302 to login.html for / and /index.html; the mux's own redirect or 400 for non-canonical spellings) and an authenticated state digest (15 GET endpoints + config file + lease file) is unchanged after the burst; with valid credentials nothing is 403, a wrong method is 405 and a non-JSON body on a mutating endpoint is 415. Further phases: an instance whose administrator is created at run time through the first-run API (swept without a restart), login attempts with unknown users / empty passwords, and an instance started on an unopenable sessions.db (either the start fails or every protected route still refuses). A package-level part races authenticated requests (taking the once-a-day expiry prolongation) against the logout of the same cookie: after both returned the cookie must be refused, also after a restart; the same part also races the logout against logins, another session's logout and requests with expired cookies. Another package-level part (authfault) presents expired (expiry edited or TTL 1 s really elapsed), never-issued and logged-out cookies through the middleware while write transactions on sessions.db fail (sessions bucket deleted, bbolt handle closed, database read-only; healthy database as the control) - all must be refused on every presentation - and releases bursts of 2-8 concurrent Basic-auth requests for one login with right, wrong and empty passwords and unknown logins: every request is judged by its own credentials whatever overlaps.",
+    "text": "The route table is taken from the running program: a verif-tagged overlay file walks the live admin ServeMux by reflection and dumps every registered pattern (cross-checked against every HTTPRegister/httpRegister call and '/control/...' literal in the source; a registered path missing from the dump makes the run inconclusive). For every dumped route the monitor sends raw HTTP/1.1 requests (request target exactly as spelled) over all methods x content types x bodies x credential shapes (none, unknown/malformed/empty/expired/logged-out cookie, token with suffix, wrong/empty/unknown basic, bad cookie + right basic, valid cookie, valid basic) and path spellings that normalise to the route (doubled slash, dot and dot-dot segments, encoded dot-dot, /login.html/.. and /assets/.. prefixes, CONNECT without path cleaning). Oracle: without valid credentials a non-public route answers only 403 (302 to login.html for / and /index.html; the mux's own redirect or 400 for non-canonical spellings) and an authenticated state digest (15 GET endpoints + config file + lease file) is unchanged after the burst; with valid credentials nothing is 403, a wrong method is 405 and a non-JSON body on a mutating endpoint is 415. Further phases: an instance whose administrator is created at run time through the first-run API (swept without a restart), login attempts with unknown users / empty passwords, and an instance started on an unopenable sessions.db (either the start fails or every protected route still refuses). A package-level part races authenticated requests (taking the once-a-day expiry prolongation) against the logout of the same cookie: after both returned the cookie must be refused, also after a restart; the same part also races the logout against logins, another session's logout and requests with expired cookies. Another package-level part (authfault) presents expired (expiry edited or TTL 1 s really elapsed), never-issued and logged-out cookies through the middleware while write transactions on sessions.db fail (sessions bucket deleted, bbolt handle closed, database read-only; healthy database as the control) - all must be refused on every presentation - and releases bursts of 2-8 concurrent Basic-auth requests for one login with right, wrong and empty passwords and unknown logins: every request is judged by its own credentials whatever overlaps. Further phases of the binary tier: GL-inet mode with Admin-Token values naming no fresh token file; accounts whose stored password is not a checkable bcrypt hash; an expired session presented after a restart while younger sessions are stored; requests without valid credentials on a kept-alive connection that carried an authenticated request; wrong Basic credentials from an address the login limiter has blocked; logins with right credentials but another method or content type.",
     "note": "Expired cookie is produced by running the binary once with session_ttl 2s. Mutating handlers are never run with valid credentials and a well-formed request. Trusted: net/http request parsing on the client side of the raw socket.",
     "technique": "runtime monitor: live route dump (reflection hook) + exhaustive request-shape sweep against the real binary",
 }
